@@ -69,10 +69,10 @@ func init() {
 			}
 			return ex.B.False
 		},
-		"vEventCount":    inVEventCount,
-		"vEventInt":      inVEventInt,
-		"vLockFree":      inVLockFree,
-		"vNote":          func(ex *Exec, fr *frame, args []Value) Value { return nil },
+		"vEventCount": inVEventCount,
+		"vEventInt":   inVEventInt,
+		"vLockFree":   inVLockFree,
+		"vNote":       func(ex *Exec, fr *frame, args []Value) Value { return nil },
 	}
 }
 
@@ -162,6 +162,8 @@ func inVSetOpt(ex *Exec, fr *frame, args []Value) Value {
 		ex.X.MapPerms = v
 	case "sprintfMax":
 		ex.X.SprintfMax = v
+	case "tickerTicks":
+		ex.X.TickerTicks = v
 	case "symIndex":
 		ex.X.SymIndex = v != 0
 	case "panicIsViolation":
